@@ -226,7 +226,7 @@ def pathDirs (env : Env) : List String := splitColon (pathOf env).toList []
 def isPath (cmd : String) : Bool := cmd.toList.contains '/'
 
 def resolve (files : List String) (env : Env) (cmd : String) : Option String :=
-  if isPath cmd then some cmd
+  if isPath cmd then (if files.contains cmd then some cmd else none)     -- a path is executed as it stands, if it exists
   else ((pathDirs env).map (fun d => d ++ "/" ++ cmd)).find? (fun f => files.contains f)
 
 /-- the launch as the kernel performs it: `argv[0]` replaced by the file that is executed;
